@@ -13,6 +13,7 @@ import TpmVerif.Check.C10
 import TpmVerif.Check.C09
 import TpmVerif.Check.C15
 import TpmVerif.Check.C14
+import TpmVerif.Check.C12
 import TpmVerif.Check.C18
 import TpmVerif.Check.C19
 import TpmVerif.Check.C20
@@ -20,7 +21,7 @@ import TpmVerif.Check.C20
 open TpmVerif
 
 def checkers : List (String × (List Line → Report)) :=
-  [ ("C16", Check.C16.check), ("C17", Check.C17.check), ("C11", Check.C11.check), ("C08", Check.C08.check), ("C02", Check.C02.check), ("C03", Check.Persist.checkC03), ("C05", Check.Persist.checkC05), ("C07", Check.Persist.checkC07), ("C06", Check.C06.check), ("C01", Check.C01.check), ("C13", Check.C13.check), ("C04", Check.C04.check), ("C10", Check.C10.check), ("C09", Check.C09.check), ("C15", Check.C15.check), ("C14", Check.C14.check),
+  [ ("C16", Check.C16.check), ("C17", Check.C17.check), ("C11", Check.C11.check), ("C08", Check.C08.check), ("C02", Check.C02.check), ("C03", Check.Persist.checkC03), ("C05", Check.Persist.checkC05), ("C07", Check.Persist.checkC07), ("C06", Check.C06.check), ("C01", Check.C01.check), ("C13", Check.C13.check), ("C04", Check.C04.check), ("C10", Check.C10.check), ("C09", Check.C09.check), ("C15", Check.C15.check), ("C14", Check.C14.check), ("C12", Check.C12.check),
     ("C18", Check.C18.check), ("C19", Check.C19.check), ("C20", Check.C20.check) ]
 
 def main (args : List String) : IO UInt32 := do
